@@ -16,6 +16,8 @@ def main():
     if a.target == "setup":
         from vf import setup
         sys.exit(setup.main())
+    if a.tier == "thorough":
+        os.environ["VF_THOROUGH"] = "1"
     pid = a.target.upper()
     try:
         mod = importlib.import_module("vf.adapters." + pid.lower())
